@@ -175,7 +175,9 @@ def prop_drivers(case, stats):
         raise Rejected(str(e))
     except Exception as e:
         raise Inconclusive('forward reference failed: %s %s' % (type(e).__name__, str(e)[:120]))
-    if case.get('poly'):
+    if case.get('poly') and 'rewrite-after-read' not in PG.features(case):
+        # (programs that rewrite a buffer entry they have read are left to the forward-mode reference: an object array hands out
+        #  the element itself for a full integer index, where UTPM hands out a view - the two executions legitimately differ)
         # polynomial programs: replace the forward-mode reference by the exact analytic derivatives (and cross-check the two)
         for tag, x in evals:
             J, Hs, deg = exact_refs(case, np.array(x, dtype=float))
@@ -350,17 +352,17 @@ def buckets(tier):
     bl = []
     for kind in ('scalar', 'vector'):
         bl.append(Bucket('drivers:' + kind, (lambda kind=kind: driver_cases(tier, kind, max_len=8)), prop_drivers,
-                         {'quick': 25, 'thorough': 800}, nontrivial=_nontrivial, classes=_classes,
+                         {'quick': 120, 'thorough': 1200}, nontrivial=_nontrivial, classes=_classes,
                          shards={'quick': 8, 'thorough': 16}, weight=5.0))
         bl.append(Bucket('drivers-buffers:' + kind,
                          (lambda kind=kind: driver_cases(tier, kind, first='rmw', families=['un', 'bin', 'binc', 'set', 'rmw', 'get', 'buf'], max_len=6)),
-                         prop_drivers, {'quick': 25, 'thorough': 600}, nontrivial=_nontrivial, classes=_classes,
+                         prop_drivers, {'quick': 120, 'thorough': 900}, nontrivial=_nontrivial, classes=_classes,
                          shards={'quick': 4, 'thorough': 8}, weight=5.0))
         bl.append(Bucket('drivers-poly:' + kind,
                          (lambda kind=kind: driver_cases(tier, kind, families=PG.FAMILIES_POLY, max_len=7, poly=True)),
-                         prop_drivers, {'quick': 25, 'thorough': 600}, nontrivial=_nontrivial, classes=_classes,
+                         prop_drivers, {'quick': 120, 'thorough': 900}, nontrivial=_nontrivial, classes=_classes,
                          shards={'quick': 4, 'thorough': 8}, weight=6.0))
-    bl.append(Bucket('gradient-list', (lambda: gradient_list_cases(tier)), prop_gradient_list, {'quick': 25, 'thorough': 500},
+    bl.append(Bucket('gradient-list', (lambda: gradient_list_cases(tier)), prop_gradient_list, {'quick': 120, 'thorough': 800},
                      nontrivial=(lambda case: 'nonlinear' in PG.features(case)),
                      classes=(lambda case: ['kind=scalar-list'] + PG.features(case)), shards={'quick': 4, 'thorough': 8}, weight=4.0))
     return bl
